@@ -13,7 +13,7 @@ CONSTANTS
   KeyVals <- KV2
   Bodies <- BodiesSmall
   Steps = {500, 1000}
-  MaxNow = 2500
+  MaxNow = 2000
   MaxTx = 3
   NParts = 2
 SPECIFICATION ISpec
